@@ -1,6 +1,7 @@
 package main
 
 import (
+	"go/constant"
 	"fmt"
 	"go/ast"
 	"go/token"
@@ -36,6 +37,7 @@ type Program struct {
 	theoryOrder []string
 	globals   map[string]Term   // package-level variable -> constant
 	globalAx  []string          // axioms from literal initialisers (bytes theory)
+	strConsts []string // (define-fun k_<pkg>_<Name> () Str <literal>) for the string constants of the module (usable in contracts)
 	paramValidators map[string]string // Params field -> validator function registered for it in ParamSetPairs
 	paramValidateCalls map[string]string // Params field -> validate* function (Params).Validate applies to it
 	paramKeys map[string]string // package-level key variable -> Params field it is registered for in (*Params).ParamSetPairs (read from the syntax every run)
@@ -249,6 +251,25 @@ func (p *Program) scanGlobals() {
 		for _, f := range pk.Syntax {
 			for _, d := range f.Decls {
 				gd, ok := d.(*ast.GenDecl)
+				if ok && gd.Tok == token.CONST {
+					// string constants of the module: k_<pkg>_<Name> names the literal (so a contract can say "returns the pricing schema")
+					for _, s := range gd.Specs {
+						vs := s.(*ast.ValueSpec)
+						for _, nm := range vs.Names {
+							c, isC := pk.TypesInfo.Defs[nm].(*types.Const)
+							if !isC || c.Val().Kind() != constant.String {
+								continue
+							}
+							kn := "k_" + short + "_" + nm.Name
+							if _, dup := p.sig.Funs[kn]; dup {
+								continue
+							}
+							p.sig.Funs[kn] = &FunSig{Ret: "Str"}
+							p.strConsts = append(p.strConsts, fmt.Sprintf("(define-fun %s () Str %s)", kn, p.sorts.strLit(constant.StringVal(c.Val()))))
+						}
+					}
+					continue
+				}
 				if !ok || gd.Tok != token.VAR {
 					continue
 				}
